@@ -70,6 +70,54 @@ CLAIMED = {
              "special-name detection are compiled code (macro_body) covered end-to-end only; values are ints.",
         design_ref="§5 C06",
     ),
+    "C19": dict(
+        category="proof",
+        technique="Lean 4 proofs (decide +kernel) over decision functions and tables regenerated from sandbox.py by a "
+                  "Python-ast translator, with the set of mutating builtin methods measured from the interpreter; "
+                  "counterexample finder + exhaustive method/route/filter sweep on the real immutable sandbox",
+        text="Theorems (Props/C19.lean over Gen/Sandbox.lean, regenerated every run): every (type, method) of "
+             "list/dict/set/deque that can mutate its receiver (measured) is refused by the translated "
+             "ImmutableSandboxedEnvironment.is_safe_attribute including the first-matching-row lookup of _mutable_spec "
+             "(mutators_blocked); for every object and name, admitted implies not-modifying and admitted by the plain "
+             "sandbox (immutable_attr_decision). Tie: translated functions cross-run against sandbox.py; every public "
+             "method x argument shapes x 7 routes x sync/async rendered with deep comparison; every built-in filter x "
+             "container receivers x container arguments (positional and per keyword parameter) x autoescape on/off.",
+        note="Trusted: Lean kernel; translator (small Python subset); measured mutator table (12 argument shapes per "
+             "method); the filter purity claim is by correspondence sweep only, not a theorem.",
+        design_ref="§5 C19",
+    ),
+    "C17": dict(
+        category="proof",
+        technique="Lean 4 proofs over sandbox decision functions regenerated from sandbox.py by a Python-ast translator "
+                  "+ adversarial access-route probes with tracer objects + structural validation of generated code",
+        text="Theorems (Props/C17.lean over Gen/Sandbox.lean): for every object and attribute name, what "
+             "is_safe_attribute admits neither starts with an underscore nor is internal (safe_attr_decision, also for "
+             "the immutable subclass); every dunder name is internal on every object; the documented internal "
+             "attributes (mro, gi_*, cr_*, ag_*, everything on code/frame/traceback) are internal. Tie: translated "
+             "functions cross-run against the real ones; 23 access routes (dot, subscript, |attr, map/sort/join/sum/"
+             "groupby/unique/min/selectattr attribute arguments, six format/format_map/Markup.format forms incl. stored "
+             "methods, loops, macro arguments) x probe objects (private instance/class/property/method attributes, "
+             "__getattr__ proxy, nested objects, 16 special objects) x 4 sandbox configurations, with the generated "
+             "code of every program checked structurally (no attribute/subscript/call on l_N_* values).",
+        note="Trusted: Lean kernel; translator; that each route consults the decision function is shown per program "
+             "(translation validation + probes), not by a theorem about compiler.py/filters.py.",
+        design_ref="§5 C17",
+    ),
+    "C18": dict(
+        category="proof",
+        technique="Lean 4 proofs over is_safe_callable and the guard shape of SandboxedEnvironment.call regenerated from "
+                  "sandbox.py + recording unsafe callables along 31 call paths + structural validation of generated code",
+        text="Theorems (Props/C18.lean over Gen/Sandbox.lean): SandboxedEnvironment.call forwards to context.call only "
+             "if is_safe_callable holds (call_guard); a callable carrying unsafe_callable or alters_data is rejected "
+             "whatever else it carries (marked_unsafe_rejected / never_invoked). Tie: translator checks the exact shape "
+             "`if not self.is_safe_callable(obj): raise SecurityError; return context.call(obj, ...)`; recording "
+             "callables reached through 31 paths x 6 environments (sync/async/immutable/overridden check/i18n) must "
+             "never run; generated code of every program must contain no context.call and no direct call of an l_N_* "
+             "value.",
+        note="Trusted: Lean kernel; translator; the compile-side claim (every Call node goes through environment.call) "
+             "is per-program translation validation, not a theorem about compiler.py.",
+        design_ref="§5 C18",
+    ),
 }
 
 NOT_YET = "not yet decided by the Lean model in this revision (machinery for it is not built; see DESIGN.md §8 build order)"
